@@ -16,6 +16,7 @@ type verifChip struct {
 	sfi       bool // a read used short-EF addressing
 	reads     int
 	firstN    int
+	full      bool // the chip answers every read with as many bytes as asked for and available
 }
 
 func verifSW(sw int) []byte { return []byte{byte(sw >> 8), byte(sw)} }
@@ -44,6 +45,9 @@ func (c *verifChip) Transceive(cla int, ins int, p1 int, p2 int, data []byte, le
 		}
 		n := verifInt(1, 65536)
 		verifAssume(n <= le && n <= len(c.F)-off)
+		if c.full {
+			verifAssume(n == le || n == len(c.F)-off)
+		}
 		if c.reads == 1 || c.delivered == 0 {
 			c.firstN = n
 		}
@@ -55,15 +59,21 @@ func (c *verifChip) Transceive(cla int, ins int, p1 int, p2 int, data []byte, le
 
 // verifRefTotal: total length (header + value) of the BER-TLV object at the start of F.
 func verifRefTotal(F []byte) (total int, ok bool) {
+	total, _, ok = verifRefTotalH(F)
+	return
+}
+
+// verifRefTotalH also returns the length of the tag+length header.
+func verifRefTotalH(F []byte) (total int, hdr int, ok bool) {
 	n := len(F)
 	if n < 2 {
-		return 0, false
+		return 0, 0, false
 	}
 	p := 1
 	if F[0]&0x1f == 0x1f {
 		for {
 			if p >= n || p >= 4 {
-				return 0, false
+				return 0, 0, false
 			}
 			b := F[p]
 			p++
@@ -73,26 +83,26 @@ func verifRefTotal(F []byte) (total int, ok bool) {
 		}
 	}
 	if p >= n {
-		return 0, false
+		return 0, 0, false
 	}
 	l0 := int(F[p])
 	p++
 	if l0 < 0x80 {
-		return p + l0, true
+		return p + l0, p, true
 	}
 	k := l0 - 0x80
 	if k < 1 || k > 4 || p+k > n {
-		return 0, false
+		return 0, 0, false
 	}
 	v := 0
 	for i := 0; i < k; i++ {
 		v = v<<8 | int(F[p+i])
 	}
-	return p + k + v, true
+	return p + k + v, p + k, true
 }
 
 func verifH_C13_readfile() {
-	chip := &verifChip{offOK: true}
+	chip := &verifChip{offOK: true, full: verifBool()}
 	chip.F = verifBlob(65535 + 8)
 	chip.cap = verifInt(1, 65536)
 	switch verifInt(0, 3) {
@@ -112,7 +122,7 @@ func verifH_C13_readfile() {
 	nfc.readFileMaxChunks = verifParam("chunks")
 	fid := uint16(verifInt(0, 0xffff))
 
-	T, hdrOK := verifRefTotal(chip.F)
+	T, hdrLen, hdrOK := verifRefTotalH(chip.F)
 	got, err := nfc.ReadFile(fid)
 
 	verifAssert(nfc.maxLe == maxLe0 || (nfc.maxLe < maxLe0 && (nfc.maxLe == 256 || nfc.maxLe == 192 || nfc.maxLe == 128)), "max read size is only lowered along the fallback ladder")
@@ -129,6 +139,12 @@ func verifH_C13_readfile() {
 	if err != nil {
 		verifReach("error")
 		verifAssert(got == nil, "no data together with an error")
+		// completeness: a well-formed stored object that fits a single read of the configured size is
+		// always delivered by a chip that accepts that size and answers reads in full (two reads: the
+		// header, then the rest; no offset beyond 32767 is ever needed). ReadFile sizes the file from
+		// its first 4 bytes, so tag+length headers longer than that are outside (no LDS file has one)
+		easy := chip.full && hdrOK && hdrLen <= 4 && T <= len(chip.F) && T <= maxLe0 && chip.cap >= maxLe0 && chip.cap >= 4 && T <= 65000 && nfc.readFileMaxChunks >= 1
+		verifAssert(!easy, "a well-formed file that fits one read is delivered by a conforming chip")
 		return
 	}
 	verifAssert(got != nil, "'not found' only when the chip says so")
